@@ -10,7 +10,7 @@ Fixpoint uvarint_fuel (fuel : nat) (n : N) : list byte :=
   | O => [n]
   | S f => if n <? 128 then [n] else (128 + n mod 128) :: uvarint_fuel f (n / 128)
   end.
-Definition uvarint (n : N) : list byte := uvarint_fuel (N.size_nat n) n.      (* binary.PutUvarint *)
+Definition uvarint (n : N) : list byte := uvarint_fuel (N.to_nat (N.size n)) n.     (* binary.PutUvarint *)
 
 Fixpoint get_uvarint (s : list byte) (shift acc : N) : option (N * list byte) :=   (* binary.ReadUvarint *)
   match s with
